@@ -101,7 +101,8 @@ CHECKS = {
                   'environment; every terminal TLC state replayed as a fault injection into the real window_score/template_input; recorded event traces validated by Trace_EnvProtocol',
         text='Every failure point is enumerated, not sampled: the collaborator call sequence is recorded from fault-free runs of the real entry points, '
              'TLC explores an exception at every call k x every initial state of the touched variables x exception kind, and each terminal state is replayed '
-             'against the real function with os.environ compared before/after; a negative-control config (restore on success only) must be refuted by TLC.',
+             'against the real function with os.environ compared before/after; a negative-control config (restore on success only) must be refuted by TLC. '
+             'In addition Apalache discharges an inductive invariant of the protocol for ANY number of collaborator calls (apalache/EnvProtocolInd.tla: 3 obligations, 1 negative control).',
         note='Trusted: the counting proxies in harness/faults.py (collaborators replaced in the module namespace; heavy stages are cheap fakes), '
              'so faults inside the real heavy stages are represented by the stage call raising. No double faults, no BaseException-only exceptions.'),
     'C04': dict(
